@@ -250,7 +250,10 @@ class Gen:
             opts.append("surplus-arg")
         if self.lists:
             opts.append("bad-cons")
-        opts += ["undefined", "bad-return", "bad-def"]
+        opts += ["undefined", "bad-return", "bad-def", "bad-import", "bad-block"]
+        # (a second definition with the signature of an existing function is NOT in the
+        # catalogue: the loop answers it with an interactive "Redefine? (y/n)" question that
+        # eats the following input - a dialogue, not a rejection, and outside the property)
         k = r.choice(opts)
         if k == "assign-const":
             return self.add(Form("bad:" + k, "%s := %d;" % (r.choice(sorted(self.consts)), r.range(1, 99)), good=False))
@@ -270,6 +273,21 @@ class Gen:
             return self.add(Form("bad:" + k, '%s << "@@x:" << %s(4) << newline;' % (self.d.out, self.fresh("nosuch")), good=False))
         if k == "bad-return":
             return self.add(Form("bad:" + k, "%s(a: %s): String == a;" % (self.fresh("g"), SI), good=False))
+        if k == "bad-import":
+            return self.add(Form("bad:" + k, "import from %s;" % self.fresh("NoSuchDomain"), good=False))
+        if k == "bad-block":
+            # a multi-line form whose error is in the middle of the block
+            nm = self.fresh("h")
+            text = ("%s(a: %s): %s == {\n   local t: %s := a + 1;\n   t := t + \"bad\";\n   t\n}" % (nm, SI, SI, SI))
+            return self.add(Form("bad:" + k, text, good=False))
+        if k == "bad-redef":
+            # an ill-typed second definition with the signature of an existing function:
+            # the existing one must keep working
+            fn, (ar, f) = r.choice(sorted(self.funs.items()))
+            params = ", ".join("%s: %s" % (p, SI) for p in (["a", "b"][:ar] if ar <= 2 else ["a"]))
+            if fn.startswith("p"):
+                params = "n: %s" % SI
+            return self.add(Form("bad:" + k, '%s(%s): %s == "nope";' % (fn, params, SI), good=False))
         nm = self.fresh("f")
         self.pending.append(nm)
         return self.add(Form("bad:" + k, '%s(a: %s): %s == a + "oops";' % (nm, SI, SI), good=False))
